@@ -9,9 +9,10 @@ import NautilusVerif.Driver.UnionD
 import NautilusVerif.Driver.CoreD
 import NautilusVerif.Driver.CrashD
 import NautilusVerif.Driver.BoundD
+import NautilusVerif.Driver.BufD
 open NautilusVerif
 
-def handlers : List (List String → Option String) := [ShiftDriver.handle, PriorDriver.handle, ResampleDriver.handle, UnionDriver.handle, CoreDriver.handle, CrashDriver.handle, BoundDriver.handle]
+def handlers : List (List String → Option String) := [ShiftDriver.handle, PriorDriver.handle, ResampleDriver.handle, UnionDriver.handle, CoreDriver.handle, CrashDriver.handle, BoundDriver.handle, BufDriver.handle]
 
 def step (line : String) : String :=
   let ws := (line.trimAscii.toString.splitOn " ").filter (· ≠ "")
